@@ -393,6 +393,18 @@ def _do_rewrite(source: str, rewrite: _Rewrite, *, fix_function_name: str = "") 
                     last_line = before.splitlines()[-1]
                     indent = len(last_line) - len(last_line.rstrip())
                     new_code += " " * indent
+                if old.start == old.end:
+                    # A new statement goes behind the indentation of its line. A blank line, or the
+                    # end of the source, has less indentation than the statement needs, and a last
+                    # line without line break would be continued by it.
+                    line_start = max(source.rfind("\n", 0, old.start), source.rfind("\r", 0, old.start)) + 1
+                    line_prefix = source[line_start : old.start]
+                    indentation = " " * getattr(new, "col_offset", 0)
+                    if line_prefix.strip():
+                        if old.start == len(source):
+                            new_code = "\n" + indentation + new_code.rstrip(" ")
+                    else:
+                        new_code = indentation[len(line_prefix) :] + new_code
 
     else:
         raise TypeError(f"Invalid replacement type: {type(new)}")
